@@ -668,6 +668,19 @@ func (p *Primary) getWALEntriesFromSequence(fromSequence uint64) ([]*wal.Entry, 
 		log.Info("Limited entries to %d for network efficiency", maxEntriesToReturn)
 	}
 
+	// Limit the size of one response as well: both ends accept messages of up
+	// to 16MB. The first entry is always returned so that the stream advances.
+	const maxBytesToReturn = 8 * 1024 * 1024
+	totalBytes := 0
+	for i, entry := range allEntries {
+		totalBytes += len(entry.Key) + len(entry.Value)
+		if i > 0 && totalBytes > maxBytesToReturn {
+			allEntries = allEntries[:i]
+			log.Info("Limited entries to %d to keep the response below %d bytes", i, maxBytesToReturn)
+			break
+		}
+	}
+
 	log.Info("Returning %d entries starting from sequence %d", len(allEntries), fromSequence)
 	return allEntries, nil
 }
